@@ -31,17 +31,40 @@ Proof. intros H. split; [exact H| constructor]. Qed.
 Definition at_x : atom.
 Proof. refine {| a_first := (chz 120, []); a_rest := []; a_neg := false |}; [apply id1; reflexivity| constructor| cbn; discriminate]. Defined.
 
+Lemma hdr_name_not_not : map crune [chz 97] <> [110; 111; 116]%Z.
+Proof. cbn. discriminate. Qed.
 Definition hd_a : chdr.
 Proof.
-  refine {| h_op := CAny; h_w1x := sp; h_w1 := []; h_sr := of_mixed (chz 97) [] [] eq_refl (Forall_nil _) (Forall_nil _) ltac:(cbn; discriminate);
+  refine {| h_op := CAny; h_w1x := sp; h_w1 := []; h_sr := of_mixed (chz 97) [] [] eq_refl (Forall_nil _) (Forall_nil _) (or_introl hdr_name_not_not);
             h_w2x := sp; h_w2 := []; h_w3x := sp; h_w3 := [];
             h_bcells := [chz 120]; h_bval := mk_binding BDefault (cells_str [chz 120]) "" ""; h_w4 := [sp];
             h_ws1x := is_ws_sp; h_ws1 := Forall_nil _; h_ws2x := is_ws_sp; h_ws2 := Forall_nil _;
             h_ws3x := is_ws_sp; h_ws3 := Forall_nil _; h_ws4 := Forall_cons _ is_ws_sp (Forall_nil _);
             h_bspec := fun w4 K Hw4 => bind_one_spec (chz 120) [] w4 K eq_refl (Forall_nil _) Hw4;
             h_bfree := fun K => eq_refl; h_nokw := _ |}.
-  intros c r E. cbn in E. inversion E; subst. cbn. intros [H|[H|[H|[H|[H|[H|[]]]]]]]; discriminate H.
+  apply mixed_hdr_nokw. intros kw Hkw. left. unfold hdr_kws in Hkw. cbn [In] in Hkw.
+  destruct Hkw as [H|[H|[H|[H|[H|[]]]]]]; subst kw; discriminate.
 Defined.
+
+(* a quantified selector that begins like the keywords `is` / `in`: the header family has no condition on first runes *)
+Definition items_cells : list cell := [chz 116; chz 101; chz 109; chz 115].
+Lemma items_head : class_match cls_id_head (crune (chz 105)) = true. Proof. reflexivity. Qed.
+Lemma items_tail : id_tail_ok items_cells. Proof. repeat constructor. Qed.
+Lemma items_not_not : map crune (chz 105 :: items_cells) <> [110; 111; 116]%Z \/ (@nil seg) <> []. Proof. left. cbn. discriminate. Qed.
+Definition hd_items : chdr.
+Proof.
+  refine {| h_op := CAny; h_w1x := sp; h_w1 := []; h_sr := of_mixed (chz 105) items_cells [] items_head items_tail (Forall_nil _) items_not_not;
+            h_w2x := sp; h_w2 := []; h_w3x := sp; h_w3 := [];
+            h_bcells := [chz 120]; h_bval := mk_binding BDefault (cells_str [chz 120]) "" ""; h_w4 := [sp];
+            h_ws1x := is_ws_sp; h_ws1 := Forall_nil _; h_ws2x := is_ws_sp; h_ws2 := Forall_nil _;
+            h_ws3x := is_ws_sp; h_ws3 := Forall_nil _; h_ws4 := Forall_cons _ is_ws_sp (Forall_nil _);
+            h_bspec := fun w4 K Hw4 => bind_one_spec (chz 120) [] w4 K eq_refl (Forall_nil _) Hw4;
+            h_bfree := fun K => eq_refl; h_nokw := _ |}.
+  apply mixed_hdr_nokw. intros kw Hkw. left. unfold hdr_kws in Hkw. cbn [In] in Hkw.
+  destruct Hkw as [H|[H|[H|[H|[H|[]]]]]]; subst kw; cbn; discriminate.
+Defined.
+Example hd_items_text : h_txt hd_items = utf8_cells "any items as x {".
+Proof. vm_compute. reflexivity. Qed.
 
 Definition exq_input := "(any a as x { x is empty }) or any a as x { x is empty }".
 Definition exq_body := aexp2 (inl at_x).
